@@ -5,7 +5,7 @@ behaviour) and what is declined (clauses that quantify over runtime values no st
 reach can bound)."""
 from .properties import prop
 
-prop('C01', ['K1', 'M1', 'M2', 'M3', 'M7', 'T4'],
+prop('C01', ['K1', 'M1', 'M2', 'M3', 'M7', 'T4', 'DC1', 'DC4'],
      'Round trip, structural part. Decided from the source: every PyTreeKind switch is exhaustive '
      '(K1); for each of the 9 container kinds the three node producers store the same metadata '
      'shape and take the arity from the container they enumerate (M1); MakeNode reads each shape '
@@ -14,7 +14,7 @@ prop('C01', ['K1', 'M1', 'M2', 'M3', 'M7', 'T4'],
      'children) - and the unflatten stack machine consumes exactly `arity` results per node (M2); '
      'the insertion order is captured as a copy before sorting and re-imposed before filling (M3); '
      'OrderedDict keys are taken in the OrderedDict\'s own order (M7); the Python one-level '
-     'handlers store/rebuild the same shapes (T4). These are necessary conditions of the round '
+     'handlers store/rebuild the same shapes (T4); the two node types the package itself registers - optree dataclasses and optree.functools.partial - flatten to and rebuild from the same name tuple / (args, keywords) pair (DC1, DC4). These are necessary conditions of the round '
      'trip; the behaviour itself (identity of leaves, equality of the re-flattened treespec for '
      'every input) is not decided.',
      ['identity of leaf objects at every position', 'equality of the re-flattened treespec',
@@ -68,7 +68,7 @@ prop('C05', ['F1', 'F14', 'F2', 'F3', 'F4', 'F11', 'W2', 'K3', 'M7', 'P1', 'P4',
      '(M2, M3).',
      ['argument identity', 'functor laws'])
 
-prop('C06', ['H1', 'H4', 'H2', 'H3'],
+prop('C06', ['H1', 'H4', 'H2', 'H3', 'P5'],
      'Equality and hash: every value that feeds HashCombine is compared strictly by EqualTo (H1); '
      'Python objects enter the hash through their Python hash, never their address (H4); '
      'EqualTo strictly compares size, none_is_leaf and per node kind / arity / registration / '
@@ -76,7 +76,7 @@ prop('C06', ['H1', 'H4', 'H2', 'H3'],
      'bindings map to the right relation and strictness (H3).',
      ['equality semantics across construction routes'])
 
-prop('C07', ['P1', 'P2cxx', 'P2py', 'P3', 'P4', 'W1', 'H3', 'F12', 'F13', 'K3', 'M7'],
+prop('C07', ['P1', 'P2cxx', 'P2py', 'P3', 'P4', 'W1', 'H3', 'F12', 'F13', 'K3', 'M7', 'P5'],
      'Prefix matching: per kind, the attributes compared by IsPrefix, FlattenUpTo, the broadcast '
      'walker and prefix_errors equal the reference table of the property statement (P1); '
      'structural mismatch raises ValueError only, prefix_errors constructs only ValueError, sorts '
@@ -89,7 +89,7 @@ prop('C07', ['P1', 'P2cxx', 'P2py', 'P3', 'P4', 'W1', 'H3', 'F12', 'F13', 'K3', 
      'each prefix leaf once per leaf of the matching subtree (F13).',
      ['exactness over all pairs', 'offset arithmetic of the re-ordering branch'])
 
-prop('C08', ['I3', 'M5', 'M5b', 'M6', 'F9', 'F12', 'W3', 'T6', 'K1', 'K3', 'M7', 'M1'],
+prop('C08', ['I3', 'M5', 'M5b', 'M6', 'F9', 'F12', 'W3', 'T6', 'K1', 'K3', 'M7', 'M1', 'P5'],
      'Inspection / constructors: entry(i)/child(i) range test and normalisation dominate all uses '
      'of the index (I3); every new treespec gets none_is_leaf and namespace from its source(s) and '
      'passes the sanity check before it escapes (M5, 14 creation sites); a treespec derived from '
@@ -101,7 +101,7 @@ prop('C08', ['I3', 'M5', 'M5b', 'M6', 'F9', 'F12', 'W3', 'T6', 'K1', 'K3', 'M7',
      'constructor enumerates children, keys and metadata exactly like flatten (K3, M7, M1).',
      ['count identities', 'transform/compose algebra', 'repr text'])
 
-prop('C09', ['M4', 'M5b', 'P1', 'P4', 'K4', 'F1', 'F14', 'F2', 'F11', 'F13', 'M2'],
+prop('C09', ['M4', 'M5b', 'P1', 'P4', 'K4', 'F1', 'F14', 'F2', 'F11', 'F13', 'M2', 'P5'],
      'Broadcasting, structural part: the merge walker copies every payload field of a node (M4); '
      'the result namespace comes from both operands (M5b); '
      'its kind x kind compatibility equals the prefix matchers\' (P1) and dict children are paired '
@@ -138,11 +138,11 @@ prop('C12', ['G7', 'G1', 'G2', 'G3', 'G4', 'G8', 'G5', 'G6', 'L4', 'K6', 'K6py',
      'twin, and the Python listing lets the namespace entry win (K6, K6py); the namespace asked for is handed down unchanged to every engine function that takes one (NS1); both registries (None-is-node, None-is-leaf) are updated by every register / unregister call (G7); the decorator-factory forms carry every option to the deferred call (G8).',
      ['behaviour after arbitrary histories'])
 
-prop('C13', ['D1', 'D2', 'D3', 'K2', 'NS1'],
+prop('C13', ['D1', 'D2', 'D3', 'D4', 'K2', 'NS1'],
      'Dict-order mode: the context manager saves the namespace\'s own flag in the same locked '
      'block as the switch and restores exactly it in a finally, on every path (D1); all four '
      'traversals consult the mode of the caller\'s namespace with global inheritance and never '
-     'sort OrderedDict (D2, K2); the namespace is handed down unchanged (NS1); set/query shapes (D3).',
+     'sort OrderedDict (D2, K2); the namespace is handed down unchanged (NS1); set/query shapes (D3); the Python-visible registry substitutes the insertion-ordered dict / defaultdict entries exactly when the mode of the asked namespace is on, in both lookup forms (D4).',
      ['restoration over all nestings (follows from D1 by an induction the checker does not make)'])
 
 prop('C14', ['A1', 'A3', 'A5', 'A6', 'A7', 'G5', 'M3'],
